@@ -77,19 +77,28 @@ var c42NodePortIPs = []string{"192.168.0.1", "10.123.0.1", "255.255.255.255"}
 
 type c42Crash struct{}
 
+var c42ErrInjected = fmt.Errorf("injected: cannot allocate memory")
+
 // c42ObsMap observes every single write.
 type c42ObsMap struct {
 	*mock.Map
 	after func(name, op string, k []byte)
+	fail  func(name, op string, k []byte) bool
 }
 
 func (m *c42ObsMap) Update(k, v []byte) error {
+	if m.fail(m.Map.GetName(), "update", k) {
+		return c42ErrInjected
+	}
 	err := m.Map.Update(k, v)
 	m.after(m.Map.GetName(), "update", k)
 	return err
 }
 
 func (m *c42ObsMap) UpdateWithFlags(k, v []byte, flags int) error {
+	if m.fail(m.Map.GetName(), "update", k) {
+		return c42ErrInjected
+	}
 	err := m.Map.UpdateWithFlags(k, v, flags)
 	m.after(m.Map.GetName(), "update", k)
 	return err
@@ -106,6 +115,9 @@ func (m *c42ObsMap) BatchUpdate(ks, vs [][]byte, flags uint64) (int, error) {
 }
 
 func (m *c42ObsMap) Delete(k []byte) error {
+	if m.fail(m.Map.GetName(), "delete", k) {
+		return c42ErrInjected
+	}
 	err := m.Map.Delete(k)
 	m.after(m.Map.GetName(), "delete", k)
 	return err
@@ -123,6 +135,29 @@ type c42Env struct {
 	crashAt         int // crash (panic) when writes reaches this number; 0 = never
 	violation       string
 	writeLog        []string
+
+	// Write faults for the Apply in progress: the attempts (1-based, counted over both maps)
+	// listed in faultAt fail once; faultAll ("frontend-delete", "backend-update", ...) makes every
+	// such operation fail for the whole Apply.
+	attempts    int
+	faultAt     map[int]bool
+	faultAll    string
+	faultsFired []string
+}
+
+func (e *c42Env) shouldFail(name, op string, k []byte) bool {
+	e.attempts++
+	which := "backend"
+	if name == e.fe.GetName() {
+		which = "frontend"
+	}
+	if e.faultAt[e.attempts] || e.faultAll == which+"-"+op {
+		f := fmt.Sprintf("attempt %d: %s %s %x FAILS", e.attempts, which, op, k)
+		e.faultsFired = append(e.faultsFired, f)
+		e.writeLog = append(e.writeLog, f)
+		return true
+	}
+	return false
 }
 
 func (e *c42Env) frontends() map[nat.FrontendKey]nat.FrontendValue {
@@ -203,8 +238,8 @@ func c42NewEnv() *c42Env {
 		mg:  mock.NewMockMap(nat.MaglevMapParameters),
 		aff: mock.NewMockMap(nat.AffinityMapParameters),
 	}
-	e.feObs = &c42ObsMap{Map: e.fe, after: e.afterWrite}
-	e.beObs = &c42ObsMap{Map: e.be, after: e.afterWrite}
+	e.feObs = &c42ObsMap{Map: e.fe, after: e.afterWrite, fail: e.shouldFail}
+	e.beObs = &c42ObsMap{Map: e.be, after: e.afterWrite, fail: e.shouldFail}
 	return e
 }
 
@@ -517,6 +552,7 @@ func c42Run(t *rapid.T, rec *ev.Recorder) {
 	}
 	nSteps := rapid.IntRange(2, ev.Scale(10, 24)).Draw(t, "nSteps")
 	applies := 0
+	pendingRetry := false
 	for step := 0; step < nSteps; step++ {
 		// Mutate the desired state.
 		nMut := rapid.IntRange(1, 4).Draw(t, "nMutations")
@@ -586,29 +622,74 @@ func c42Run(t *rapid.T, rec *ev.Recorder) {
 			classes["restart-from-existing-maps"] = true
 			hist = append(hist, "restart")
 		}
-		// Apply, possibly dying at a map write.
+		// Apply, possibly dying at a map write and / or with individual map writes failing.
 		e.crashAt = 0
 		if rapid.IntRange(0, 4).Draw(t, "crash") == 0 {
 			e.crashAt = e.writes + rapid.IntRange(1, 12).Draw(t, "crashAfterWrites")
 		}
+		e.attempts, e.faultAt, e.faultAll, e.faultsFired = 0, nil, "", nil
+		switch rapid.IntRange(0, 5).Draw(t, "writeFaults") {
+		case 0, 1:
+			e.faultAt = map[int]bool{}
+			for i := rapid.IntRange(1, 3).Draw(t, "nFaults"); i > 0; i-- {
+				e.faultAt[rapid.IntRange(1, 24).Draw(t, "failAttempt")] = true
+			}
+		case 2:
+			e.faultAll = rapid.SampledFrom([]string{"frontend-delete", "frontend-delete", "backend-update", "backend-update", "frontend-update", "backend-delete"}).Draw(t, "failAll")
+		}
 		before := e.writes
 		completed, err := e.apply(c42State(svcs))
 		applies++
+		fired := e.faultsFired
+		e.faultAt, e.faultAll = nil, ""
 		if e.violation != "" {
 			fail("clause M violated (apply #%d): %s", applies, e.violation)
 		}
-		if completed && err != nil {
+		if completed && err != nil && len(fired) == 0 {
 			fail("HARNESS-GAP: Apply returned an error without any fault injected: %v", err)
 		}
-		if completed {
-			hist = append(hist, fmt.Sprintf("apply(%dw)", e.writes-before))
+		switch {
+		case completed && err == nil:
+			hist = append(hist, fmt.Sprintf("apply(%dw,%df)", e.writes-before, len(fired)))
 			if e.writes-before > 0 {
 				classes["apply-with-writes"] = true
 			}
-			if bad := e.checkApplied(svcs); bad != "" {
-				fail("clause A violated after apply #%d:\n    %s", applies, bad)
+			if len(fired) > 0 {
+				classes["write-fault-absorbed-apply-ok"] = true
 			}
-		} else {
+			// "Once a sync completes": Apply reported success, so the maps must be exact.
+			if bad := e.checkApplied(svcs); bad != "" {
+				fail("clause A violated after apply #%d (returned nil; injected write failures: %v):\n    %s", applies, fired, bad)
+			}
+			pendingRetry = false
+		case completed:
+			classes["apply-error-after-write-fault"] = true
+			for _, f := range fired {
+				parts := strings.Fields(f)
+				classes["fault-"+parts[2]+"-"+parts[3]] = true
+			}
+			hist = append(hist, fmt.Sprintf("apply-ERR(%dw,%df)", e.writes-before, len(fired)))
+			pendingRetry = true
+			if rapid.IntRange(0, 2).Draw(t, "retryNow") != 0 {
+				// The proxy's runner retries a failed sync with the same state.
+				e.crashAt = 0
+				before = e.writes
+				completed, err = e.apply(c42State(svcs))
+				applies++
+				if e.violation != "" {
+					fail("clause M violated (retry apply #%d after a failed sync): %s", applies, e.violation)
+				}
+				if !completed || err != nil {
+					fail("HARNESS-GAP: fault-free retry of a failed sync did not succeed: %v", err)
+				}
+				hist = append(hist, fmt.Sprintf("retry(%dw)", e.writes-before))
+				classes["retry-after-failed-sync"] = true
+				if bad := e.checkApplied(svcs); bad != "" {
+					fail("clause A violated after retry apply #%d (previous sync failed on %v):\n    %s", applies, fired, bad)
+				}
+				pendingRetry = false
+			}
+		default:
 			classes["crash-mid-apply"] = true
 			hist = append(hist, fmt.Sprintf("apply-CRASH@%dw", e.writes-before))
 			// The process died: a new syncer starts over the maps as they are and applies the same state.
@@ -629,6 +710,7 @@ func c42Run(t *rapid.T, rec *ev.Recorder) {
 			if bad := e.checkApplied(svcs); bad != "" {
 				fail("clause A violated after recovery apply #%d:\n    %s", applies, bad)
 			}
+			pendingRetry = false
 		}
 		for _, s := range svcs {
 			if s.ExtLocal {
@@ -645,8 +727,26 @@ func c42Run(t *rapid.T, rec *ev.Recorder) {
 			}
 		}
 	}
+	if pendingRetry {
+		// The last sync failed on an injected write error: the fault-free retry must converge.
+		e.crashAt = 0
+		completed, err := e.apply(c42State(svcs))
+		applies++
+		if e.violation != "" {
+			fail("clause M violated (closing retry apply #%d): %s", applies, e.violation)
+		}
+		if !completed || err != nil {
+			fail("HARNESS-GAP: closing fault-free Apply did not succeed: %v", err)
+		}
+		hist = append(hist, "closing-retry")
+		classes["retry-after-failed-sync"] = true
+		if bad := e.checkApplied(svcs); bad != "" {
+			fail("clause A violated after closing retry apply #%d:\n    %s", applies, bad)
+		}
+	}
 	cl := c42Keys(classes)
-	nontrivial := classes["endpoint-removed"] || classes["restart-from-existing-maps"] || classes["crash-mid-apply"]
+	nontrivial := classes["endpoint-removed"] || classes["restart-from-existing-maps"] || classes["crash-mid-apply"] ||
+		classes["apply-error-after-write-fault"] || classes["write-fault-absorbed-apply-ok"]
 	var shape []string
 	for _, h := range hist {
 		if i := strings.IndexByte(h, '('); i >= 0 {
@@ -662,8 +762,9 @@ func c42Run(t *rapid.T, rec *ev.Recorder) {
 func TestVerifC42SyncerMidUpdate(t *testing.T) {
 	ev.Quiet()
 	rec := ev.New("C42", "syncer",
-		"random histories over 4 services x 2 ports (cluster IP, 0-2 external IPs, 0-2 load-balancer IPs with optional source ranges, node port, external/internal local policy, session affinity, TCP/UDP) and endpoint sets (ready / not ready / terminating, local / remote, growing, shrinking, reordered); syncer restarts over the existing maps and simulated crashes at a chosen map write followed by a restart; non-trivial when an endpoint set shrinks, a syncer restarts from existing maps or a crash interrupts an Apply; distinct by step-kind sequence + classes",
-		"every single Update/Delete of the frontend and backend maps is observed through a wrapper of felix/bpf/mock.Map (batch operations are applied entry by entry)",
+		"random histories over 4 services x 2 ports (cluster IP, 0-2 external IPs, 0-2 load-balancer IPs with optional source ranges, node port, external/internal local policy, session affinity, TCP/UDP) and endpoint sets (ready / not ready / terminating, local / remote, growing, shrinking, reordered); syncer restarts over the existing maps, simulated crashes at a chosen map write followed by a restart, and injected failures of individual map Update/Delete calls; non-trivial when an endpoint set shrinks, a syncer restarts from existing maps, a crash interrupts an Apply or a write failure is injected; distinct by step-kind sequence + classes",
+		"every single Update/Delete of the frontend and backend maps is observed through a wrapper of felix/bpf/mock.Map (batch operations are applied entry by entry); the wrapper sits below cachingmap / TypedMap and can make individual Update/Delete calls fail (chosen attempts once, or every frontend/backend update/delete of one Apply)",
+		"an Apply that returns nil is judged as a completed sync (maps exact) even when write failures were injected; an Apply that returns an error is followed (at once or later) by a fault-free Apply that must return nil and leave the maps exact; clause M is checked after every successful write throughout",
 		"frontend keys of different services never collide (unique cluster IPs, external/LB IPs and node ports, as Kubernetes guarantees for cluster IPs and node ports)",
 		"no topology hints, no Maglev, no default/kubernetes service, no internalTrafficPolicy=Local together with a node port (per-node expansion from the route table is not modelled)",
 		"policy flags of external-IP frontends are not asserted (the statement does not fix them)",
